@@ -184,8 +184,15 @@ class Inventory:
         if ok:
             s.status, s.reason = "guarded", "dominated by a passed is_ok/is_err/is_some/is_none (or match) test of %s" % fmt_place(fn, root)
             return
+        contra, _w = g.variant_guarded(root, not truth, bid)
+        if contra:
+            # the site is only reached where a passed test has established the OTHER variant: it panics whenever it is reached
+            s.extra["contradicted"] = "dominated by a passed test that establishes the opposite variant of %s" % fmt_place(fn, root)
         # value produced by a callee whose failure depends on the server's environment only (reviewed table), wherever the site is
         pv = du.val_place(du.canon(root))
+        if not truth:
+            # `.err().unwrap()` / `unwrap_err()` outside a passed is_err test: every argument below is about the SUCCESS of the producer
+            pv = ("none",)
         if pv[0] == "call" and pv[1]:
             for pat, why in self.exempt.get("environment_producers", []):
                 if pv[1] == pat:
@@ -222,7 +229,7 @@ class Inventory:
                         if ok2:
                             s.status, s.reason = "guarded", "non-empty %s established by a dominating length test" % fmt_place(fn, tgt)
                             return
-                if name in CURSOR_READS and d[3].get("arg_tys") and re.search(r"std::io::Cursor<(&\[u8\]|&'?\w* ?\[u8\]|std::vec::Vec<u8>|&std::vec::Vec<u8>)>", d[3]["arg_tys"][0]):
+                if truth and name in CURSOR_READS and d[3].get("arg_tys") and re.search(r"std::io::Cursor<(&\[u8\]|&'?\w* ?\[u8\]|std::vec::Vec<u8>|&std::vec::Vec<u8>)>", d[3]["arg_tys"][0]):
                     s.status, s.reason = "guarded", "read from an in-memory std::io::Cursor cannot fail"
                     return
                 if name in SPLIT_ONCE and len(args) == 2:
@@ -243,7 +250,7 @@ class Inventory:
                         if la == tgt and kb is not None and kb >= 1 and not self._written_between(g, tgt, strip_casts(idx[2])[3], bid):
                             s.status, s.reason = "guarded", "index len-%d of the same unmodified vector (the subtraction is a separate site)" % kb
                             return
-                if name in self.F.fns and self.always_succ(self.F.fns[name]):
+                if truth and name in self.F.fns and self.always_succ(self.F.fns[name]):
                     s.status, s.reason = "guarded", "callee %s never returns Err/None (every return value is built as Ok/Some)" % name
                     return
         if why and isinstance(why, tuple):
@@ -722,6 +729,16 @@ def _is_count_arith(du, v, depth=0):
                 e = du.val_rvalue(d[3], 0, d[1]) if d[0] == "assign" else (du.val_call(d[3], 0, d[1]) if d[0] == "call" else None)
                 if e is None:
                     return False
+                # a definition that can only shrink the accumulator: self - n, self.saturating_sub(n), the Some payload of self.checked_sub(n)
+                es = strip_casts(e)
+                if es[0] == "place" and len(es[1][1]) >= 2 and es[1][1][0] == ("d", "Some"):
+                    es = strip_casts(du.val_place((es[1][0], ())))
+                    if es[0] == "call" and es[1] and es[1].endswith("::checked_sub") and es[2] and strip_casts(es[2][0]) == v:
+                        continue
+                elif es[0] == "call" and es[1] and es[1].endswith(("::saturating_sub", "::checked_sub")) and es[2] and strip_casts(es[2][0]) == v:
+                    continue
+                elif es[0] == "binop" and es[1].startswith("Sub") and strip_casts(es[2]) == v:
+                    continue
                 ts = terms(e, [])
                 selfs = [t for t in ts if t == v]
                 rest = [t for t in ts if t != v]
